@@ -118,3 +118,17 @@ Theorem C09_array_dimensions_exact : forall a, (ka_len a < 65536)%N -> (ka_size 
                      (if ka_has_size a && negb (ka_has_len a) then Z.of_N (ka_size a) else -1)%Z).
 Proof. exact array_dimensions_exact. Qed.
 Print Assumptions C09_array_dimensions_exact.
+
+(* every accessor of a type tells a type blob from a basic type stored in place by one test (recognised in all ten places of
+   gitypeinfo.c and gibaseinfo.c on every run): with the flag positions of the regenerated layout, EVERY offset below 2^24 is
+   recognised as an offset - so in a typelib smaller than 16 MiB no type blob is ever taken for a basic type, wherever it lies
+   (the boundary sweep of the harness moves blobs across 0x10000) - and the first offset that would be misread is 2^24 *)
+Theorem C09_complex_types_recognised : forall o, (0 < o < 2 ^ 24)%Z ->
+  acc_type_is_inline (word_field o SimpleTypeBlobFlags__reserved) (word_field o SimpleTypeBlobFlags__reserved2) = false.
+Proof. exact complex_types_recognised. Qed.
+Print Assumptions C09_complex_types_recognised.
+
+Theorem C09_inline_misread_at_16MiB :
+  acc_type_is_inline (word_field (2 ^ 24) SimpleTypeBlobFlags__reserved) (word_field (2 ^ 24) SimpleTypeBlobFlags__reserved2) = true.
+Proof. exact inline_misread_at_16MiB. Qed.
+Print Assumptions C09_inline_misread_at_16MiB.
